@@ -155,6 +155,23 @@ def run(rep):
 
     def table(rule, key, forms, k, spec, what, soft=None):
         """spec(vec) -> expected ('T'/'F'/'M' hard, 'notT' = F or M, 'any')."""
+        # all ways of writing the same connective over the same operands must give the *same full result* (the statement's
+        # "identically in two-operand, grouped and identifier-list form"): this also pins the rows the spec leaves open
+        results = {}
+        for fname, shape, idents in forms:
+            try:
+                results[fname] = tuple(evaluate(shape, idents, vec) for vec in tri.vectors(k))
+            except Unrecognised:
+                results[fname] = None
+        names = [f for f in results if results[f] is not None]
+        if len(names) >= 2:
+            ref = names[0]
+            dis = []
+            for f in names[1:]:
+                for vec, a, b in zip(tri.vectors(k), results[ref], results[f]):
+                    if a != b:
+                        dis.append("%s: %s=%s but %s=%s" % (",".join(NAMES[x] for x in vec), ref, NAMES[a], f, NAMES[b]))
+            rep.check(not dis, rule, "%s/forms-agree/k=%d" % (key, k), S.fns["solver::solve_expression"].sp, what + ": every form gives the same result on every operand vector", "; ".join(dis[:4]) if dis else None)
         for fname, shape, idents in forms:
             bad = []
             softdiff = []
